@@ -1673,7 +1673,13 @@ impl SnapshotObserver {
             ));
         }
         let gid_hex = hex::encode(w.gid.as_slice());
-        let want: BTreeSet<String> = model.iter().map(|(e, id)| format!("snap_{gid_hex}_{e}_{id}")).collect();
+        // (snapshots the harness itself removed behind the client's back are not expected)
+        let gone = w.vanished.get(&who);
+        let want: BTreeSet<String> = model
+            .iter()
+            .map(|(e, id)| format!("snap_{gid_hex}_{e}_{id}"))
+            .filter(|n| !gone.map(|g| g.contains(n)).unwrap_or(false))
+            .collect();
         let got: BTreeSet<String> = listed.iter().map(|(n, _)| n.clone()).collect();
         if want != got {
             let strip = |s: &BTreeSet<String>| s.iter().map(|n| n.rsplitn(3, '_').take(2).map(|p| p[..p.len().min(8)].to_string()).collect::<Vec<_>>().join("<-")).collect::<Vec<_>>();
